@@ -188,7 +188,10 @@ def _uncached_container_dispatch(ps, rv):
 
     def container_test(v):
         if v[0] == "call" and v[1] == "isinstance" and v[2][0] == NODE:
-            return all(c in ("list", "ndarray", "numpy.ndarray", "np.ndarray")
+            # (tuples may take the same way: one that holds a list cannot be
+            # hashed either, and map_foreign routes them to map_tuple)
+            return all(c in ("list", "tuple", "ndarray", "numpy.ndarray",
+                             "np.ndarray")
                        for c in _class_names_of(v[2][1]))
         return v[0] == "call" and v[1] == "is_numpy_array" and v[2] == (NODE,)
     # the guard may be a disjunction of container tests taken as a whole
@@ -203,6 +206,67 @@ def _uncached_container_dispatch(ps, rv):
     return False
 
 
+def check_container_inputs(ctx, model, prop_note=""):
+    """Lists and numpy arrays are inputs every mapper accepts (map_foreign
+    routes them to map_list / map_numpy_array) and neither can be a dictionary
+    key.  The memoizing dispatcher therefore needs a way round its look-up for
+    exactly the unhashable kinds map_foreign routes: a guarded path that hands
+    the container to the uncached dispatcher before any key is built."""
+    from ..summary import facts_of
+    base = model.cls(f"{M}:Mapper")
+    mf = base.members.get("map_foreign")
+    if mf is None or mf.kind != "func":
+        raise AnalysisError("Mapper.map_foreign not found")
+    routed = set()
+    for ps in summarize(mf.node):
+        if ps.term != "return":
+            continue
+        rv = ps.retval
+        if not (rv[0] == "call" and rv[1] in ("self.map_list",
+                                              "self.map_numpy_array")):
+            continue
+        routed.add("list" if rv[1] == "self.map_list" else "ndarray")
+    if routed != {"list", "ndarray"}:
+        raise AnalysisError(f"map_foreign routes {sorted(routed)}: expected list "
+                            "and ndarray handlers")
+    cm = model.cls(f"{M}:CachedMapper")
+    mem = cm.members.get("__call__")
+    if mem is None or mem.kind != "func":
+        raise AnalysisError("CachedMapper.__call__ not found")
+    covered = set()
+    for ps in summarize(mem.node, loop_mode="01"):
+        if ps.term != "return" or not _uncached_container_dispatch(
+                ps, ps.retval):
+            continue
+        if any(e.kind == "selfcall" and e.name == "get_cache_key"
+               for e in ps.events):
+            continue        # the key (hash of the container) came first
+        for _, pol0, v0 in ps.conds:
+            if not isinstance(v0, tuple):
+                continue
+            for v, pol in facts_of(v0, pol0):
+                if not pol:
+                    continue
+                for t in ([v] if v[0] != "boolop" else list(v[2])):
+                    if t[0] == "call" and t[1] == "is_numpy_array":
+                        covered.add("ndarray")
+                    if t[0] == "call" and t[1] == "isinstance" and \
+                            t[2][0] == NODE:
+                        for c in _class_names_of(t[2][1]):
+                            covered.add("list" if c == "list" else "ndarray"
+                                        if "ndarray" in c else c)
+    missing = sorted(routed - covered)
+    ctx.ob("P/CachedMapper.__call__/unhashable-containers-bypass-the-table",
+           not missing, cm.module.loc(mem.node),
+           "lists and numpy arrays are dispatched without a table look-up "
+           "(their entries are memoized one by one)" if not missing else
+           f"CachedMapper.__call__ builds a dictionary key from every input, "
+           f"and {' / '.join(missing)} inputs are unhashable: every memoizing "
+           "mapper (evaluate(), CachedIdentityMapper, CachedWalkMapper, "
+           "CachedCollector, ...) raises TypeError on [x, x + y] where the plain "
+           "mapper goes to map_list" + prop_note)
+
+
 def _class_names_of(c):
     if c[0] == "lit" and c[1] == "tuple":
         return [n for x in c[2] for n in _class_names_of(x)]
@@ -215,6 +279,7 @@ def _class_names_of(c):
 
 def check_lookaside(ctx, model):
     cm = model.cls(f"{M}:CachedMapper")
+    check_container_inputs(ctx, model)
     # the look-aside table is created per instance by the constructor and never
     # declared as a class-level mutable object
     from ..rules import init_effects
